@@ -28,6 +28,12 @@ def make_events(seed: int, n_ctx: int, per_ctx: int, *, coerce: bool = False, ex
         except Exception as exc:  # a generator slip, not a verdict
             raise RuntimeError(f"driver could not build {json.dumps(T)}: {exc!r}")
         apischema.cache.reset()
+        # typing caches List[Union[a, b]] by equality: a type built earlier with the alternatives in the other
+        # order would be handed back, and under coercion the order of the alternatives decides the result
+        from . import replay_deser
+
+        replay_deser.clear_typing_caches()
+        tp = ctx.type(T)
         datas = [g.gen_data(T) for _ in range(per_ctx)]
         if exotic:
             datas = [plant_exotic(rng, d) if rng.random() < 0.6 else d for d in datas]
